@@ -9,6 +9,7 @@ import (
 	"golang.org/x/tools/go/ssa"
 
 	"verif/sa/internal/ai"
+	"verif/sa/internal/report"
 )
 
 func newEval() *DecEval {
@@ -157,4 +158,24 @@ func firstPos(c *Ctx, fn *ssa.Function) string {
 		return ""
 	}
 	return c.pos(fn.Blocks[0].Instrs[0])
+}
+
+// adopt re-states obligations of another property's rule set inside this result: the other
+// check is evaluated on the same program and its obligations for the given rules are counted here
+// under new rule names (a property that contains another property's clause decides it itself
+// instead of referring to the sibling check).
+func adopt(dst, src *report.Result, rules map[string]string, why string) {
+	for from, to := range rules {
+		n := src.Instances[from]
+		bad := 0
+		for _, f := range src.Findings {
+			if f.Rule == from {
+				bad++
+				dst.Findings = append(dst.Findings, report.Finding{Property: dst.Property, Rule: to, Construct: f.Construct, Kind: f.Kind, Where: f.Where, Detail: f.Detail + " [" + why + "]"})
+			}
+		}
+		dst.Obligations += n
+		dst.Discharged += n - bad
+		dst.Instances[to] += n
+	}
 }
